@@ -92,6 +92,8 @@ def selftest(kit, recs, bad):
     good = [r for r in recs if r["rid"] not in bad and r["res"] == "ok" and r["post"]["edges"]
             and any(r["post"][E2N]) and r["pre"] != r["post"]]
     if len(good) < 3:
+        if any(c[:4] in ("C01:", "C02:", "C03:", "C04:", "C05:", "C18:") for cl in bad.values() for c in cl):
+            return {"skipped": "too few accepted records in a run with rejections"}
         raise MachineryError("self-test: not enough accepted records")
     muts = []
     for r in rng.sample(good, min(9, len(good))):
